@@ -3,6 +3,7 @@
 package saml2
 
 import (
+	"github.com/beevik/etree"
 	"github.com/russellhaering/gosaml2/types"
 	dsig "github.com/russellhaering/goxmldsig"
 )
@@ -172,4 +173,37 @@ func VH_C17_no_shared_writes() {
 	vAssert("C17.no-operation-writes-the-sp-object-except-the-cached-signing-context", vWatchedWritesExcept("signingContext") == 0)
 	vAssert("C17.no-operation-writes-package-level-state", vGlobalWrites() == 0)
 	vAssert("C17.exported-configuration-unchanged", vConfigSig(sp) == before)
+}
+
+// VH_C18_two_documents: a built message keeps its own identity when another message is built before the first
+// one is serialised (documents must not share attribute storage): each document still carries the ID
+// (and everything else) it was created with.
+func VH_C18_two_documents() {
+	sp := vhBuilderSP()
+	vRandInstall()
+	build := func(kind int) (*etree.Document, error) {
+		switch kind {
+		case 0:
+			return sp.BuildAuthRequestDocumentNoSig()
+		case 1:
+			return sp.BuildLogoutRequestDocumentNoSig(vString("nameID"), vString("sessionIndex"))
+		}
+		return sp.BuildLogoutResponseDocumentNoSig(vString("status"), vString("reqID"))
+	}
+	k1 := vChoice("first.kind", 3)
+	d1, err1 := build(k1)
+	if err1 != nil || d1 == nil || d1.Root() == nil {
+		return
+	}
+	id1, n1 := vhAttr(d1.Root(), "ID")
+	sig1 := vTreeSig(d1.Root())
+	d2, err2 := build(vChoice("second.kind", 3))
+	if err2 != nil || d2 == nil || d2.Root() == nil {
+		return
+	}
+	vReach("two-built", true)
+	id2, n2 := vhAttr(d2.Root(), "ID")
+	again, _ := vhAttr(d1.Root(), "ID")
+	vAssert("C18,C17.a-later-message-does-not-change-an-earlier-one", vAnd(n1 == 1 && n2 == 1, vAnd(again == id1, vTreeSig(d1.Root()) == sig1)))
+	_ = id2
 }
